@@ -66,6 +66,9 @@ func (w *world) monResponse(r addReq, res result) {
 		if strings.Contains(res.raw, "— ") {
 			mon("mon_refusal", []string{r.hdr, r.note.abstract}, false, "a refusal carries a signature line")
 		}
+		if res.status == "409" && res.by != nil {
+			w.monConflict(r, res)
+		}
 		return
 	}
 	ns := r.note.spec
@@ -118,6 +121,49 @@ func (w *world) monResponse(r addReq, res result) {
 		ok, why = false, "missing cosignature"
 	}
 	mon("mon_cosig", args, ok, why)
+}
+
+// a 409 carries the recorded size: the size in the body is what the origin's register held at some moment between the
+// answering instance's own last applied write to it (an instance may not know what ANOTHER instance wrote since, but it
+// cannot report something older than what it recorded itself) and the completion of the answer
+func (w *world) monConflict(r addReq, res result) {
+	origin := r.note.spec.origin
+	if origin == "" {
+		return
+	}
+	w.st.mu.Lock()
+	w.syncWrec()
+	k := w.originKey(origin)
+	from := 0
+	for j := res.nw0 - 1; j >= 0; j-- { // only writes applied before the request was handed over
+		if x := w.wrec[j]; x.key == k && x.by == res.by {
+			from = j + 1
+			break
+		}
+	}
+	// sizes on record after j writes, j in [from, nw]
+	cur := int64(0)
+	seen := map[int64]bool{}
+	for j := 0; j <= res.nw; j++ {
+		if j > 0 {
+			if x := w.wrec[j-1]; x.key == k && x.ok {
+				cur = x.size
+			}
+		}
+		if j >= from {
+			seen[cur] = true
+		}
+	}
+	onrec := w.onRecord(origin, res.nw)
+	w.st.mu.Unlock()
+	got, err := strconv.ParseInt(strings.TrimSpace(res.raw), 10, 64)
+	ok := err == nil && seen[got]
+	why := ""
+	if !ok {
+		why = fmt.Sprintf("409 with body %q, which is not the recorded size at any moment since this instance's own last applied write (on record: %s); history: %s",
+			strings.TrimSpace(res.raw), onrec, w.history(origin))
+	}
+	mon("mon_conflict", []string{hx([]byte(origin)), fmt.Sprint(r.inst), strings.TrimSpace(res.raw)}, ok, why)
 }
 
 // all recorded checkpoints of every origin: sizes non-decreasing, equal sizes have equal roots,
@@ -275,6 +321,7 @@ func (w *world) presented(b []byte) string {
 // ---- release monitors: the property's own clause on everything that becomes readable outside the witness ----
 
 type wrec struct {
+	by   *plan
 	key  [32]byte
 	size int64
 	root tlog.Hash
@@ -298,7 +345,7 @@ type rel struct {
 func (w *world) syncWrec() {
 	for k := len(w.wrec); k < len(w.st.writes); k++ {
 		lw := w.st.writes[k]
-		x := wrec{key: lw.key}
+		x := wrec{key: lw.key, by: lw.by}
 		if c, err := torchwood.ParseCheckpoint(noteText(lw.data)); err == nil {
 			x.size, x.root, x.ok = c.N, c.Hash, true
 		}
